@@ -657,6 +657,20 @@ example : transformPoint ⟨65536, 0, 0, 0, 65536, 0, 0, 0, 12648641⟩ ⟨22937
     IsNearest 3 (dot 65536 0 0 229376 0 22253377 * 65536) (dot 0 0 12648641 229376 0 22253377) := by
   unfold IsNearest; decide
 
+/-- the exact homogeneous coordinate is zero (no quotient exists), every `int32_t` matrix and vector: FALSE, and
+    the vector is left untouched -/
+theorem transformPoint_w_zero (t : Transform) (v : Vec) (hv : v.isI32)
+    (hw : dot t.m20 t.m21 t.m22 v.x v.y v.z = 0) : transformPoint t v = some (false, v) := by
+  have h31 : is3116 v.x ∧ is3116 v.y ∧ is3116 v.z := by
+    unfold Vec.isI32 isI32 at hv; unfold is3116; omega
+  have hA : vecAssert v = true := by simp [vecAssert, h31.1, h31.2.1, h31.2.2]
+  have r2 := row_exact t.m20 t.m21 t.m22 v
+  rw [hw] at r2
+  have hdi : rowHi t.m20 t.m21 t.m22 v + rowLo t.m20 t.m21 t.m22 v / 65536 = 0 := by omega
+  have hdf : rowLo t.m20 t.m21 t.m22 v % 65536 = 0 := by omega
+  have c1 : ¬ ((0 : Int) = fixed1) := by unfold fixed1; omega
+  simp only [transformPoint, transformPoint3116, hA, hdi, hdf, Bool.not_true, Bool.false_eq_true, if_false, c1, and_self, and_true, if_true]
+
 /-! ### non-vacuity: every hypothesis set above is satisfiable by a non-trivial value -/
 
 -- transformPoint_affine / transformPoint3116_affine: rotation-like affine matrix with translation, w = 1.0
